@@ -15,6 +15,7 @@ func init() { register("C16", checkC16) }
 
 func checkC16(c *Ctx) {
 	r := c.R
+	r.Rule("R10.2", "(shared with C10) the layout in force is the logger's own: each With-form applies its setting to the new child and leaves the receiver alone")
 	r.Rule("R16.1", "zone decision: the decision function extracted from appendTimestamp formats z.UTC() exactly when utcTime == 2 or (utcTime == 0 and the LlocalTime flag is off), and z itself otherwise; SetUTCMode stores 2 for no argument/true and 1 for false")
 	r.Rule("R16.2", "layout decision: the layout is the logger's own when non-empty, else defaultLayouts[flags & Ldatetimeflags], else TimeNano; the table's keys are combinations of the three date/time flags only, and every layout that prints a time of day also prints the zone (otherwise the text cannot be parsed back to the instant)")
 	r.Rule("R16.3", "same instant in all formats: every branch formats the zone-adjusted value of the function's own argument with time.Time.AppendFormat and the decided layout; the record's timestamp printer passes the record's own instant, which set() takes from the call (time.Now() in logContext, the caller's value in WriteThru)")
@@ -37,6 +38,7 @@ func checkC16(c *Ctx) {
 		fixedMembersAlways(c, p, m, "R16.3", feasibleModes)
 		instantFlow(c, p, m)
 		c09Pooled(c, p, m, "R16.4", feasibleModes)
+		c10WithSet(c, p, m)
 	}
 	c.Floor["R16.1"] = 6
 	c.Floor["R16.2"] = 6
@@ -274,8 +276,10 @@ func c16Timestamp(c *Ctx, p *Prog, m *Model) {
 				r.Bad("R16.2", key, p.Pos(kv.KExpr.Pos()), "key %d uses flags outside Ldate|Ltime|Lmicroseconds: it can never be selected", k)
 			case strings.Contains(lay, "15") && !(strings.Contains(lay, "Z07") || strings.Contains(lay, "-07") || strings.Contains(lay, "MST")):
 				r.Bad("R16.2", key, p.Pos(kv.VExpr.Pos()), "layout %q prints a time of day without its zone: parsing the text cannot give back the instant", lay)
+			case len(layoutProblems(lay)) > 0:
+				r.Bad("R16.2", key, p.Pos(kv.VExpr.Pos()), "layout %q does not determine the instant it prints: %s", lay, strings.Join(layoutProblems(lay), "; "))
 			default:
-				r.Ok("R16.2", key, p.Pos(kv.VExpr.Pos()), "layout %q", lay)
+				r.Ok("R16.2", key, p.Pos(kv.VExpr.Pos()), "layout %q (elements %v)", lay, layoutTokens(lay))
 			}
 		}
 		for k := int64(0); k <= dtMask; k++ {
@@ -289,6 +293,7 @@ func c16Timestamp(c *Ctx, p *Prog, m *Model) {
 	if tn, _, ok := p.Const(p.Slog, "TimeNano"); ok {
 		lay := constant.StringVal(tn)
 		r.Check(strings.Contains(lay, "Z07") || strings.Contains(lay, "-07") || strings.Contains(lay, "MST"), "R16.2", "const:TimeNano", "-", "the fallback layout carries the zone", "the fallback layout TimeNano prints no zone")
+		r.Check(len(layoutProblems(lay)) == 0, "R16.2", "const:TimeNano:elements", "-", fmt.Sprintf("the fallback layout's elements %v determine the time of day", layoutTokens(lay)), "the fallback layout TimeNano does not determine the instant it prints: "+strings.Join(layoutProblems(lay), "; "))
 	}
 	// SetUTCMode
 	if su := p.Method(p.Slog, "Entry", "SetUTCMode"); su != nil {
@@ -516,4 +521,141 @@ func c16ModeCallers(c *Ctx, p *Prog) {
 	if n == 0 {
 		r.OkTrivial("R16.6", "utc-callers", "-", "SetUTCMode is not called inside the package")
 	}
+}
+
+// layoutTokens splits a time layout into the reference-time elements the time package recognises (the subset that
+// matters here: date, clock, zone and fraction elements).
+func layoutTokens(lay string) []string {
+	var out []string
+	has := func(i int, pre string) bool { return strings.HasPrefix(lay[i:], pre) }
+	for i := 0; i < len(lay); {
+		tok := ""
+		switch c := lay[i]; c {
+		case 'J':
+			if has(i, "January") {
+				tok = "January"
+			} else if has(i, "Jan") {
+				tok = "Jan"
+			}
+		case 'M':
+			if has(i, "Monday") {
+				tok = "Monday"
+			} else if has(i, "Mon") {
+				tok = "Mon"
+			} else if has(i, "MST") {
+				tok = "MST"
+			}
+		case '0':
+			for _, t := range []string{"002", "01", "02", "03", "04", "05", "06"} {
+				if has(i, t) {
+					tok = t
+					break
+				}
+			}
+		case '1':
+			if has(i, "15") {
+				tok = "15"
+			} else {
+				tok = "1"
+			}
+		case '2':
+			if has(i, "2006") {
+				tok = "2006"
+			} else {
+				tok = "2"
+			}
+		case '_':
+			if has(i, "_2006") {
+				tok = "_"
+				out = append(out, "lit")
+				i++
+				continue
+			} else if has(i, "__2") {
+				tok = "__2"
+			} else if has(i, "_2") {
+				tok = "_2"
+			}
+		case '3', '4', '5':
+			tok = string(c)
+		case 'P':
+			if has(i, "PM") {
+				tok = "PM"
+			}
+		case 'p':
+			if has(i, "pm") {
+				tok = "pm"
+			}
+		case '-', 'Z':
+			for _, t := range []string{"070000", "07:00:00", "0700", "07:00", "07"} {
+				if has(i+1, t) {
+					tok = string(c) + t
+					break
+				}
+			}
+		case '.', ',':
+			if i+1 < len(lay) && (lay[i+1] == '0' || lay[i+1] == '9') {
+				j := i + 1
+				for j < len(lay) && lay[j] == lay[i+1] {
+					j++
+				}
+				if j >= len(lay) || lay[j] < '0' || lay[j] > '9' {
+					tok = lay[i:j]
+				}
+			}
+		}
+		if tok == "" {
+			i++
+			continue
+		}
+		out = append(out, tok)
+		i += len(tok)
+	}
+	return out
+}
+
+// layoutProblems: necessary conditions for "parsing the printed text with that layout gives back the instant".
+func layoutProblems(lay string) []string {
+	var probs []string
+	cnt := map[string]int{}
+	for _, t := range layoutTokens(lay) {
+		switch t {
+		case "15":
+			cnt["hour24"]++
+		case "03", "3":
+			cnt["hour12"]++
+		case "PM", "pm":
+			cnt["ampm"]++
+		case "04", "4":
+			cnt["min"]++
+		case "05", "5":
+			cnt["sec"]++
+		case "01", "1", "Jan", "January":
+			cnt["month"]++
+		case "02", "2", "_2", "__2", "002":
+			cnt["day"]++
+		case "2006", "06":
+			cnt["year"]++
+		}
+	}
+	if cnt["hour12"] > 0 && cnt["ampm"] == 0 {
+		probs = append(probs, "the hour is printed on the 12-hour clock (03/3) without an AM/PM mark: afternoon instants parse back 12 hours early")
+	}
+	if cnt["hour24"]+cnt["hour12"] > 1 {
+		probs = append(probs, "the hour is printed twice")
+	}
+	if (cnt["min"] > 0 || cnt["sec"] > 0) && cnt["hour24"]+cnt["hour12"] == 0 {
+		probs = append(probs, "minutes or seconds are printed without the hour")
+	}
+	if cnt["sec"] > 0 && cnt["min"] == 0 {
+		probs = append(probs, "seconds are printed without the minutes")
+	}
+	for _, k := range []string{"min", "sec", "month", "day", "year"} {
+		if cnt[k] > 1 {
+			probs = append(probs, "the "+k+" element occurs twice")
+		}
+	}
+	if cnt["year"]+cnt["month"]+cnt["day"] > 0 && !(cnt["year"] > 0 && cnt["month"] > 0 && cnt["day"] > 0) {
+		probs = append(probs, "the date is incomplete (year, month and day are not all printed)")
+	}
+	return probs
 }
